@@ -159,6 +159,73 @@ CHECKS["C01"] = {
     "level_note": "sampler outcomes not reachable by the strategies and unbounded thread counts are not covered",
 }
 
+CHECKS["C04"] = {
+    "title": "every generated key is a valid NTRU trapdoor with in-range leaves",
+    "rule": "Per seed: keygen under the panic monitor, then on the in-memory key (hook accessors): f*G - g*F == q exactly over "
+            "Z[X]/(X^n+1) (i128 schoolbook); basis layout [g,-f,G,-F] against the serialised (f,g,F); h decoded from the public "
+            "key bytes with h*f == g mod q (reference ring) and f invertible mod q; exactly n leaves, each in "
+            "[sigma_min, 1.8205] with zero imaginary part; sum over leaves of 2 ln(sigma/leaf) == n ln q (product of "
+            "Gram-Schmidt norms = q^n) to 1e-6; first leaf == sigma/||(g,-f)||; for a few keys per run every leaf is recomputed "
+            "from an independent f64 Gram-Schmidt of the 2n x 2n rotation basis in the tree's (bit-reversed) row order and must "
+            "agree to 1e-7. The in-situ side (every sampler call during signing has sigma' in range) is monitored by C09's "
+            "in-situ leg. Seeds: derived from VERIF_SEED, counter seeds, and the regression seeds of C05. "
+            "distinct_nontrivial = distinct seeds whose key passed through all oracles.",
+    "assumptions": ["i128 / reference-ring arithmetic of the harness", "about 130 keys quick, 4600 thorough out of 2^256 seeds"],
+    "legs": [{"name": "keys"}],
+    "technique": "invariant monitor at read-only hooks (basis and tree leaves) with exact integer oracles and an independent Gram-Schmidt cross-check",
+    "level_text": "Sampled over seeds; each sampled key is checked exactly (integer identities) and numerically (leaf range, determinant identity, independent Gram-Schmidt).",
+    "level_note": "seeds not generated are not covered",
+}
+
+CHECKS["C11"] = {
+    "title": "NTT multiplication in Z_q[X]/(X^n+1) is exact",
+    "rule": "(tables, exhaustive) psi := forward table[512] must satisfy psi^1024 = -1; all 1024 forward entries == psi^bitrev10(i), "
+            "all 1024 inverse entries == psi^-bitrev10(i), all 11 stored n^-1 constants (entry 0 and unused entries included, through "
+            "the accessor hook). (products) for every n in {1,2,4,...,1024}: all n unit impulses times a random polynomial and times "
+            "a negated impulse, all-(q-1), alternating, zero, and seeded random pairs: intt(ntt(a)) == a, "
+            "intt(ntt(a) .* ntt(b)) == schoolbook negacyclic product mod q, outputs canonical. distinct_nontrivial = table entries + "
+            "(n, impulse index) cells + sizes.",
+    "assumptions": ["reference schoolbook product and modular exponentiation in the harness"],
+    "exhaustive": True,
+    "exhaustive_scope": "the twiddle tables and n^-1 constants are checked completely; the transforms are linear, so the n impulses per size determine them given exact field arithmetic (C12); random pairs are samples",
+    "legs": [{"name": "tables"}, {"name": "products"}],
+    "technique": "exhaustive table monitor + differential monitor against a schoolbook reference over all impulses and random pairs for every size",
+    "level_text": "Tables complete; transforms checked on a basis of the input space plus random samples for all 11 sizes.",
+    "level_note": "relies on C12 for the exactness of the field operations used inside the butterflies",
+}
+
+CHECKS["C13"] = {
+    "title": "floating-point FFT accuracy, split/merge inverse",
+    "rule": "(table, exhaustive) every entry of the complex twiddle table within 2^-50 of exp(i*pi*bitrev10(k)/1024). (accuracy) for "
+            "every n in {2,...,1024}: all n impulses of magnitude 2^14 times a random b, constant +-2^14 x 2^10, alternating signs, and "
+            "seeded random integer vectors with |a_i| <= 2^14, |b_i| <= 2^10 (and smaller ranges): ||ifft(fft(a)) - a||_inf <= 2^-30 ||a||, "
+            "||ifft(fft(a).fft(b)) - a*b||_inf <= 2^-30 ||a|| ||b|| where a*b is the exact integer negacyclic product (i128), "
+            "merge(split(F)) == F and split(fft(a)) == (fft(a_even), fft(a_odd)) to 2^-30 relative. The worst observed relative "
+            "errors are reported (about 1e-15 on the unchanged tree, i.e. the tolerance is 2^20 times the observed error). "
+            "distinct_nontrivial = table entries + (n, impulse) cells + sizes.",
+    "assumptions": ["libm cos/sin accurate to a few ulp for the table reference", "inputs are integer-valued so the exact product is computable"],
+    "legs": [{"name": "table"}, {"name": "accuracy"}],
+    "technique": "differential monitor against exact integer arithmetic with the property's error bound; exhaustive table monitor",
+    "level_text": "Table complete; accuracy sampled over all sizes with extreme and random inputs in the stated magnitude range.",
+    "level_note": "real (non-integer) inputs are covered only through linearity",
+}
+
+CHECKS["C14"] = {
+    "title": "HashToPoint equals the SHAKE-256 rejection sampler",
+    "rule": "Differential monitor of hash_to_point(s, 512) and (s, 1024) against Algorithm 3 over an own Keccak-f[1600]/SHAKE-256 "
+            "(known-answer self-test on every run): all lengths 0..300 x {zeros, 0xFF, random}, lengths around multiples of the "
+            "136-byte rate, 4 KiB, 64 KiB, 1 MiB (16 MiB thorough), and a search leg over counter strings that keeps going until "
+            "the reference's 16-bit chunk stream has contained the exact boundary values 61444 (largest accepted), 61445 (smallest "
+            "rejected), 65535, 12288, 12289 at least 100 times each. Also: every coefficient in [0,q), two calls agree, the 512 "
+            "point is the prefix of the 1024 point. distinct_nontrivial = lengths + long inputs + inputs whose stream contained a "
+            "boundary chunk.",
+    "assumptions": ["own SHAKE-256 (self-tested against OpenSSL-generated known answers)"],
+    "legs": [{"name": "differential"}],
+    "technique": "differential monitor against an independent SHAKE-256 + Algorithm 3 with boundary-chunk coverage counters",
+    "level_text": "Sampled over inputs; the rejection threshold is exercised at its exact boundary hundreds of times per run.",
+    "level_note": "inputs not generated are not covered",
+}
+
 NOT_APPLICABLE = {}
 
 ENGINES = [
